@@ -196,6 +196,9 @@ class FileSystemLoader(BaseLoader):
     ) -> tuple[str, str, t.Callable[[], bool]]:
         pieces = split_template_path(template)
 
+        # Files in earlier search paths that would shadow the one found.
+        shadowing: list[str] = []
+
         for searchpath in self.searchpath:
             # Use posixpath even on Windows to avoid "drive:" or UNC
             # segments breaking out of the search directory.
@@ -203,6 +206,8 @@ class FileSystemLoader(BaseLoader):
 
             if os.path.isfile(filename):
                 break
+
+            shadowing.append(filename)
         else:
             plural = "path" if len(self.searchpath) == 1 else "paths"
             paths_str = ", ".join(repr(p) for p in self.searchpath)
@@ -217,6 +222,10 @@ class FileSystemLoader(BaseLoader):
         mtime = os.path.getmtime(filename)
 
         def uptodate() -> bool:
+            # A template added to an earlier search path takes precedence.
+            if any(os.path.isfile(f) for f in shadowing):
+                return False
+
             try:
                 return os.path.getmtime(filename) == mtime
             except OSError:
